@@ -77,6 +77,30 @@ impl PropCase for Complete {
             }
             Err(e) => return Err(Fail::new("streaming-protocol", "start, n entries, end per list response", e)),
         }
+        // the Iterator adapters of the streaming parser must agree with plain next() (small files only)
+        if st.events.len() <= 24 {
+            use sml_rs::parser::streaming::Parser;
+            let n = st.events.len();
+            for k in 0..=n {
+                let a = Parser::new(x).nth(k).map(|r| r.map(|e| crate::conv::conv_event(&e)).map_err(|e| crate::conv::PKind::of(&e)));
+                let b = Parser::new(x).skip(k).next().map(|r| r.map(|e| crate::conv::conv_event(&e)).map_err(|e| crate::conv::PKind::of(&e)));
+                let want_k = st.events.get(k).cloned().map(Ok);
+                ensure!(
+                    a == want_k && b == want_k,
+                    "streaming-iterator-adapters",
+                    format!("nth({}) / skip({}).next() give the same item as {} plain next() calls: {:?}", k, k, k + 1, want_k.as_ref().map(|_| "Ok(event)")),
+                    format!("nth: {:?} ; skip+next: {:?}", a.as_ref().map(|r| r.as_ref().map(|_| "event").map_err(|e| e.name())), b.as_ref().map(|r| r.as_ref().map(|_| "event").map_err(|e| e.name())))
+                );
+            }
+            let cnt = Parser::new(x).count();
+            let last_ok = Parser::new(x).last().map(|r| r.is_ok());
+            ensure!(
+                cnt == n && (n == 0 || last_ok == Some(true)),
+                "streaming-iterator-adapters",
+                format!("count() == {} and last() is the final event", n),
+                format!("count() == {}, last() ok = {:?}", cnt, last_ok)
+            );
+        }
         // observed classes
         for m in &want.messages {
             match &m.body {
@@ -249,6 +273,16 @@ fn deterministic_files() -> Vec<(AFile, WidthPolicy)> {
             v.push((list_file(vec![entry_with(val.clone())]), pol));
         }
     }
+    // very long octet strings (beyond 2^16) as value, server id and list signature
+    for n in [65535usize, 65536, 70000] {
+        let big: Vec<u8> = (0..n).map(|i| (i % 251) as u8).collect();
+        let mut f = list_file(vec![entry_with(AValue::Bytes(big.clone()))]);
+        if let ABody::GetList(g) = &mut f.messages[0].body {
+            g.server_id = big.clone();
+            g.list_signature = Some(big);
+        }
+        v.push((f, WidthPolicy::Minimal));
+    }
     // status widths
     for w in 1..=8usize {
         let umax = if w == 8 { u64::MAX } else { (1u64 << (8 * w)) - 1 };
@@ -375,6 +409,45 @@ pub fn run(ctx: &mut Ctx) {
             }
         }
     }
+    // valid lists with 2^16 - 1, 2^16 and 2^16 + 1 real entries (five-nibble list TLF, ~0.5 MB)
+    for (i, n) in [65535usize, 65536, 65537].iter().enumerate() {
+        if ctx.mine(i as u64 + 5) {
+            let mut r = Rng::new(99 + *n as u64);
+            let ast = smlgen::gen_tiny_list_file(&mut r, *n);
+            let e = encode_file(&ast, &Knobs::canonical(), &mut rng0);
+            ctx.eval(&Complete { x: e.bytes.clone(), ast: Some(ast), origin: "list-of-2^16-entries", enc_class: "canonical".into() });
+        }
+    }
+    // messages whose checksum starts with a zero byte, encoded in the one-byte form (found by search)
+    if ctx.shard == 0 {
+        let mut found = 0;
+        'outer: for tid_len in 0..3usize {
+            for g in 0..=255u8 {
+                for a in [0u8, 1, 255] {
+                    let mk = |last: bool| AMsg {
+                        transaction_id: vec![0x31; tid_len],
+                        group_no: g,
+                        abort_on_error: a,
+                        body: ABody::Close(AClose { global_signature: if last { None } else { Some(vec![1]) } }),
+                    };
+                    for shape in 0..2 {
+                        let ast = if shape == 0 { AFile { messages: vec![mk(true)] } } else { AFile { messages: vec![mk(false), mk(true)] } };
+                        let mut k = Knobs::canonical();
+                        k.narrow_crc = true;
+                        let e = encode_file(&ast, &k, &mut rng0);
+                        if e.n_narrow_crc > 0 {
+                            ctx.eval(&Complete { x: e.bytes.clone(), ast: Some(ast), origin: "one-byte-checksum", enc_class: "narrow-crc".into() });
+                            ctx.bump("floor:one-byte-checksum");
+                            found += 1;
+                            if found >= 40 {
+                                break 'outer;
+                            }
+                        }
+                    }
+                }
+            }
+        }
+    }
     // random ASTs x random encoding knobs
     let n = ctx.count(60_000, 3_000_000);
     for i in 0..n {
@@ -413,7 +486,7 @@ pub fn run(ctx: &mut Ctx) {
 }
 
 pub fn floors() -> Vec<String> {
-    let mut v: Vec<String> = vec!["floor:body:open".into(), "floor:body:close".into(), "floor:body:getlist".into(), "floor:time:alt".into(), "floor:time:std".into()];
+    let mut v: Vec<String> = vec!["floor:one-byte-checksum".into(), "floor:body:open".into(), "floor:body:close".into(), "floor:body:getlist".into(), "floor:time:alt".into(), "floor:time:std".into()];
     for n in ["Bool", "Bytes", "I8", "I16", "I32", "I64", "U8", "U16", "U32", "U64", "List"] {
         v.push(format!("floor:value:{}", n));
     }
